@@ -14,8 +14,10 @@ package main
 // kind 4      oracle only (configurations outside the model: the sample configuration with regular
 //             expressions, parseTime, extractHead/Tail, redactEmail, two output types; records routed by
 //             the real byKeySet orchestrator)                                           (c12_iso.go)
+// kind 5      kind 3 with  parseTime key: time  as first transformation: a transform instance that keeps state
+//             across records (its timezone cache) on pooled records whose buffers are recycled  (c12_xfstate.go)
 //
-// Kinds 3 and 4 run in a child process (harness C12 child serve): a write to read-only memory or a panic in
+// Kinds 3, 4 and 5 run in a child process (harness C12 child serve): a write to read-only memory or a panic in
 // the worker goroutine kills the process, and the parent then reports the case that did it.
 
 import (
@@ -160,7 +162,7 @@ func c12RunLocal(c *Case) (string, []Fail) {
 		return c12RunPut(c)
 	case 2:
 		return c12RunScript(c)
-	case 3:
+	case 3, 5:
 		return c12RunPipeline(c)
 	case 4:
 		return c12RunIso(c)
@@ -170,7 +172,7 @@ func c12RunLocal(c *Case) (string, []Fail) {
 
 func c12Run(c *Case) (string, []Fail) {
 	switch c.Kind {
-	case 3, 4:
+	case 3, 4, 5:
 		return c12InChild(c)
 	}
 	return c12RunLocal(c)
@@ -178,7 +180,7 @@ func c12Run(c *Case) (string, []Fail) {
 
 func c12Describe(c *Case) string {
 	switch c.Kind {
-	case 3:
+	case 3, 5:
 		if pc, err := c12DecodePipe(c); err == nil {
 			return pc.describe()
 		}
@@ -196,6 +198,7 @@ func c12Gen(g *Gen) {
 	c12GenPool(g)
 	c12GenScript(g)
 	c12GenPipe(g)
+	c12GenXfState(g)
 	c12GenIso(g)
 	if c12child != nil {
 		c12child.stop()
